@@ -256,8 +256,8 @@ static ReadOut do_read(const uint8_t* d, size_t n, int ctx, bool prefill) {
   return r;
 }
 
-enum RigId { R_PED, R_BUF, R_STR, R_BPED, NRIG };
-static const char* kRig[] = {"PedanticBufferReader", "BufferReader", "StreamReader<stringstream>", "BoundedReader<PedanticBufferReader>"};
+enum RigId { R_PED, R_BUF, R_STR, R_BPED, R_FWD, NRIG };  // R_FWD joins the version-pair (C07) and truncation (C05) loops
+static const char* kRig[] = {"PedanticBufferReader", "BufferReader", "StreamReader<stringstream>", "BoundedReader<PedanticBufferReader>", "StreamReader<forward-only stream>"};
 
 struct Version {
   int index = 0;
@@ -275,6 +275,7 @@ static ReadOut read_any(int rig, const uint8_t* d, size_t n, int ctx, bool prefi
     case R_PED: return do_read<TV, RPed, true>(d, n, ctx, prefill);
     case R_BUF: return do_read<TV, RBuf, true>(d, n, ctx, prefill);
     case R_STR: return do_read<TV, RStr, true>(d, n, ctx, prefill);
+    case R_FWD: return do_read<TV, RStrFwd, true>(d, n, ctx, prefill);
     default: return do_read<TV, RBounded<RPed>, true>(d, n, ctx, prefill);
   }
 }
@@ -285,6 +286,7 @@ static ReadOut read_bare(int rig, const uint8_t* d, size_t n, int ctx, bool pref
     case R_PED: return do_read<TV, RPed, false>(d, n, BARE, prefill);
     case R_BUF: return do_read<TV, RBuf, false>(d, n, BARE, prefill);
     case R_STR: return do_read<TV, RStr, false>(d, n, BARE, prefill);
+    case R_FWD: return do_read<TV, RStrFwd, false>(d, n, BARE, prefill);
     default: return do_read<TV, RBounded<RPed>, false>(d, n, BARE, prefill);
   }
 }
@@ -522,7 +524,7 @@ static void run_c05x() {
 // ================================================================ C08 (framing)
 static int cat_to_err(Cat c, int rig) {
   switch (c) {
-    case Cat::Trunc: return rig == R_STR ? (int)nop::ErrorStatus::StreamError : (int)nop::ErrorStatus::ReadLimitReached;
+    case Cat::Trunc: return (rig == R_STR || rig == R_FWD) ? (int)nop::ErrorStatus::StreamError : (int)nop::ErrorStatus::ReadLimitReached;
     case Cat::Limit: return (int)nop::ErrorStatus::ReadLimitReached;
     case Cat::Prefix: return (int)nop::ErrorStatus::UnexpectedEncodingType;
     case Cat::TableHash: return (int)nop::ErrorStatus::InvalidTableHash;
